@@ -50,6 +50,12 @@ def listed(h):
     s.append(("calls-then-silence", h, h, _every("qos", 0.3 * H, 2 * H), 4 * H + 3000))
     #     the server stops after three frames: the remaining time, not a full new interval, counts
     s.append(("server-stops", h, h, _every("shb", 0.9 * H, 2.75 * H), int(2.7 * H) + 2 * H + 3000))
+    # (f) the server goes silent just before the client closes: the unanswered close ends with
+    #     MissedServerHeartbeats 2 h after the server's last byte (it does not wait for ever)
+    s.append(("close-unanswered", h, h, _merge(_every("shb", 0.5 * H, 1.0 * H), [[int(1.1 * H), "mute"]]), int(1.2 * H)))
+    s.append(("close-unanswered-busy", h, h,
+              _merge(_every("shb", 0.5 * H, 1.5 * H), _every("pub", 0.4 * H, 1.5 * H), [[int(1.6 * H), "mute"]]),
+              int(1.7 * H)))
     return s
 
 
@@ -166,7 +172,8 @@ def run(tier, seed, t0):
              "operations [publish / basic.qos], observation time), one process per session, %s sessions at a time. "
              "Listed patterns for negotiated h in %s: silence (h from either side being the minimum), a frame every "
              "0.9 h for 5.5 h, one byte every 0.9 h, busy-then-idle, busy client with silent server, calls then "
-             "silence, server stops after three frames; five h = 0 set-ups observed for 3.5 s; server on/off masks "
+             "silence, server stops after three frames, the server going silent just before the client closes (the close must end with "
+             "MissedServerHeartbeats, not hang); five h = 0 set-ups observed for 3.5 s; server on/off masks "
              "over 8 slots of 0.6 h with seeded random client publishes (%s). Every record is stamped in ms from one "
              "monotonic clock; HeartbeatTrace.tla judges from the recorded times only (it does not know the pattern). "
              "non-trivial = every session (each runs the timers for seconds); distinct = distinct (options, schedule, "
